@@ -679,7 +679,8 @@ func runHostile(c *mon.Case) {
 
 func Spec() *mon.Spec {
 	return &mon.Spec{
-		ID: "C38", Level: "exploration",
+		ID:            "C38",
+		SpinViolation: true, Level: "exploration",
 		Rule: "case = option spec set (0..6 options: short-only, long-only, both; all arities; rare duplicates) under one of the 8 configurations and 12 argument lists of 0..8 words (short clusters, attached/detached arguments incl. values that look like options, long options with = and detached values, single-dash long options under LongOnly, unknown options, '-', '--', '--=x', plain and empty words); Parse and Complete are compared with a reference parser written from the getopt_long conventions (options with spec identity, Long flag, Argument, Unknown; non-option arguments; error presence; completion context); Complete is also compared directly with Parse of all but the last word. Phase elvish does the same through flag:parse-getopt in the interpreter, phase edit-complete checks which callback / candidates edit:complete-getopt produces. Non-trivial = argument list with at least one parsed option and a non-option argument or a pending argument.",
 		Assumptions: []string{
 			"--name=value for a long option that takes no argument is not checked (GNU: error; conventions differ)",
